@@ -28,17 +28,19 @@ Two-phase cases (parts ``resnapshot-after-edit*``) append one edit::
                  handle: the composite assignment turns it into a sub-map)
                | mapover (empty ResourceMap assigned over the handle ``name``)
 
-The root snapshot is taken and every access path of the tree (and every absent
-name) is read from it; the edit is applied to the map itself (not through the
-root), a NEW root snapshot is taken and compared in full with the map as it is
-now.  Then every path is read again from the OLD snapshot: nobody set or
-deleted anything on it, so each answer must be either the answer it gave
-before the edit (a frozen snapshot) or what the map answers now for that path
-(a live mirror) - the statement does not say which, anything else (a raw
-Handle where a loaded resource was and is expected ...) is a violation
-(``old_snapshot_is_frozen_or_live``).
+The root snapshot is taken, the edit is applied to the map itself (not through
+the root), a NEW root snapshot is taken and compared in full with the map as
+it is now.  Then every access path of the tree as it was (and every absent
+name) is read from the OLD snapshot: nobody set or deleted anything on it, so
+each answer must be either the answer of a faithful snapshot of the tree as
+it was before the edit (a frozen snapshot; that a fresh snapshot answers so
+is what the one-phase parts check on the same trees) or what the map answers
+now for that path (a live mirror) - the statement does not say which,
+anything else (a raw Handle where a loaded resource was and is expected ...)
+is a violation (``old_snapshot_is_frozen_or_live``).
 """
 import keyword
+import re
 
 from mc import env  # noqa: F401  (binds desper to the tree under test)
 from mc import kernel
@@ -56,7 +58,11 @@ RULE = ('E3: every resource tree of depth <= 3 over the names '
         f'{list(NAMES)} (distinct among siblings; a node is a handle in the '
         'top layer, a handle shadowing an older one in a second ChainMap '
         'layer, a handle living only in the second layer, or a sub-map) '
-        'within the stated nodes-per-map and total-node bounds, built on the '
+        'within the stated nodes-per-map and total-node bounds (part '
+        'parameter family_is_union_of: one box in the quick tier; in the '
+        'thorough tier the large box over the six names without "__q__" '
+        'united with every tree over all seven names of the smaller box), '
+        'built on the '
         'real ResourceMap with populator style layering; a second part '
         'repeats the smaller trees with handles.maps.append layering.  For '
         'each tree: get_static_map(), then every path by chained [] , by '
@@ -77,26 +83,31 @@ RULE = ('E3: every resource tree of depth <= 3 over the names '
         'map[x + "/a"] = handle (the composite assignment turns the handle '
         'into a sub-map) and map[x] = ResourceMap() (a map over a handle '
         'name)} applied to that map object itself: get_static_map() on the '
-        'root, every path and absent name read from it by [] / getattr / '
-        'get (absent names: those of the alphabet), the one edit, '
-        'get_static_map() on the root again, then the '
+        'root, the one edit, get_static_map() on the root again, then the '
         'full comparison of the NEW snapshot (every path by [] / getattr / '
         'get, every absent name) against the map as it is now, then every '
-        'path and absent name of the tree before the edit read again from '
-        'the OLD snapshot: each answer is the answer from before the edit '
+        'path and every absent alphabet name of the tree before the edit '
+        'read by [] / getattr / get from the OLD snapshot: each answer is '
+        'the answer a faithful snapshot of the tree before the edit gives '
         'or the answer of the map now.  A two-phase case is distinct by '
         '(tree, edited map, edit).')
 
+# A family is the union of one or more (alphabet, nodes per map, nodes in
+# total) boxes; a later box only contributes the trees that use a name the
+# earlier boxes do not have (its bounds lie inside theirs).  The thorough
+# tier keeps the large boxes on the six names without '__q__' and adds every
+# tree with '__q__' of up to 4 nodes.
+NAMES6 = NAMES[:6]
 BOUNDS = {
-    # tier: (main part (per_map, total), append-style part (per_map, total))
-    'quick': ((3, 4), (3, 3)),
-    'thorough': ((4, 5), (3, 4)),
+    # tier: (main part, append-style part)
+    'quick': ([(NAMES, 3, 4)], [(NAMES, 3, 3)]),
+    'thorough': ([(NAMES6, 4, 5), (NAMES, 4, 4)], [(NAMES, 3, 4)]),
 }
 # two-phase family (snapshot, one edit, new snapshot): bounds of the tree
 # BEFORE the edit; None = part not run in that tier
 EDIT_BOUNDS = {
-    'quick': ((3, 3), None),
-    'thorough': ((3, 4), (3, 3)),
+    'quick': ([(NAMES, 3, 3)], None),
+    'thorough': ([(NAMES6, 3, 4), (NAMES, 3, 3)], [(NAMES, 3, 3)]),
 }
 EDIT_SEP = '>>'
 EDIT_VERBS = ('add', 'replace', 'addmap', 'clear', 'deepen', 'mapover')
@@ -119,9 +130,8 @@ def name_class(name):
 
 
 # -- the family -----------------------------------------------------------
-def gen_maps(depth, budget, per_map):
+def gen_maps(depth, budget, per_map, names=NAMES):
     """Yield (text, nodes) for every map within the bounds."""
-    names = NAMES
 
     def rec(i, here, budget):
         if i == len(names) or here == per_map or budget == 0:
@@ -133,7 +143,7 @@ def gen_maps(depth, budget, per_map):
             for rest, u in rec(i + 1, here + 1, budget - 1):
                 yield (f'{n}:{k}',) + rest, u + 1
         if depth > 1:
-            for sub, us in gen_maps(depth - 1, budget - 1, per_map):
+            for sub, us in gen_maps(depth - 1, budget - 1, per_map, names):
                 for rest, u in rec(i + 1, here + 1, budget - 1 - us):
                     yield (f'{n}:m({sub})',) + rest, u + 1 + us
 
@@ -141,14 +151,34 @@ def gen_maps(depth, budget, per_map):
         yield ','.join(entries), used
 
 
-def family(per_map, total, style):
-    """All cases, smallest trees first (first violation = minimal tree)."""
-    buckets = [[] for _ in range(total + 1)]
-    for text, used in gen_maps(DEPTH, total, per_map):
-        if style == 'A' and not any(f':{k}' in text for k in 'su'):
-            continue            # no layer: identical to the I case
-        buckets[used].append(f'{style}|{text}')
+def family(boxes, style):
+    """All cases of the union of the boxes, smallest trees first (first
+    violation = minimal tree)."""
+    buckets = [[] for _ in range(max(b[2] for b in boxes) + 1)]
+    earlier = []
+    for names, per_map, total in boxes:
+        fresh = [n for n in names if n not in earlier]
+        if earlier:
+            # "already listed" must be the same as "uses no fresh name"
+            if not fresh or per_map > boxes[0][1] or total > boxes[0][2] \
+                    or any(m != n and m.endswith(n)
+                           for n in fresh for m in NAMES):
+                raise HarnessError(f'boxes {boxes!r} are not nested')
+            marks = [re.compile('(^|[,(])' + re.escape(n) + ':')
+                     for n in fresh]
+        for text, used in gen_maps(DEPTH, total, per_map, names):
+            if style == 'A' and not any(f':{k}' in text for k in 'su'):
+                continue            # no layer: identical to the I case
+            if earlier and not any(m.search(text) for m in marks):
+                continue            # listed by an earlier box
+            buckets[used].append(f'{style}|{text}')
+        earlier += fresh
     return [c for b in buckets for c in b]
+
+
+def boxes_text(boxes):
+    return [dict(names=list(n), nodes_per_map=pm, nodes_total=tot)
+            for n, pm, tot in boxes]
 
 
 def parse(case):
@@ -592,10 +622,10 @@ def edits_of(tree, path=()):
             yield from edits_of(sub, path + (name,))
 
 
-def edit_family(per_map, total, style):
+def edit_family(boxes, style):
     """All two-phase cases, smallest trees first."""
     out = []
-    for case in family(per_map, total, style):
+    for case in family(boxes, style):
         _, tree = parse(case)
         out += [f'{case}{EDIT_SEP}{e}' for e in edits_of(tree)]
     return out
@@ -694,9 +724,9 @@ _OLD_PROBES = tuple((n, n.isidentifier()) for n in NAMES)
 _ABSENT = ('absent',)
 
 
-def shape_of(node):
-    """The names of the tree as it is now: {name: None | {..sub-map..}}."""
-    return {name: shape_of(entry[1]) if entry[0] == 'm' else None
+def frozen_desc(node):
+    """What the tree holds now: {name: handle object | {..sub-map..}}."""
+    return {name: frozen_desc(entry[1]) if entry[0] == 'm' else entry[1]
             for name, entry in node.entries.items()}
 
 
@@ -715,38 +745,6 @@ def _read(cur, name, form):
     except Exception as exc:
         return ('error', type(exc).__name__)
     return ('obj', v)
-
-
-def read_all(shape, snap):
-    """Every (path, form) of ``shape`` (its names and every absent alphabet
-    name on every map) read from ``snap`` by chained [] / getattr / get, in a
-    fixed order.  -> [(path, form, outcome)], outcome = ('obj', object) |
-    ('absent',) | ('error', exception name); below something that is not a
-    sub-snapshot (any more) everything counts as absent."""
-    out = []
-    static = desper.StaticResourceMap
-
-    def visit(shape, path, curs):
-        for name, ident in _OLD_PROBES:
-            sub = shape.get(name, _SKIPPED)
-            there = path + (name,)
-            nxt = []
-            for form, cur in enumerate(curs):
-                if cur is _SKIPPED:         # attr walk through a non-identifier
-                    nxt.append(_SKIPPED)
-                    continue
-                if form == 1 and not ident:
-                    nxt.append(_SKIPPED)
-                    continue
-                res = _ABSENT if cur is None else _read(cur, name, form)
-                out.append((there, form, res))
-                nxt.append(res[1] if res[0] == 'obj'
-                           and isinstance(res[1], static) else None)
-            if sub is not _SKIPPED and sub is not None:
-                visit(sub, there, nxt)
-
-    visit(shape, (), [snap, snap, snap])
-    return out
 
 
 def _same(a, b):
@@ -776,7 +774,7 @@ def live_answer(root_map, path, form):
 
 def _kind(outcome):
     if outcome[0] != 'obj':
-        return outcome[0]
+        return outcome[0]       # absent | error | snapshot
     v = outcome[1]
     if isinstance(v, desper.Handle):
         return 'handle'
@@ -787,31 +785,66 @@ def _kind(outcome):
     return 'other'
 
 
-def check_old_snapshot(root, before, after, verb):
-    """-> number of answers that moved with the map (live), the rest being
-    frozen."""
-    moved = 0
-    for (path, form, was), (_, _, now) in zip(before, after):
-        if _same(was, now):
-            continue                # frozen reading
+def check_old_snapshot(root, desc, old, verb):
+    """Every (path, form) of ``desc`` - the tree the snapshot ``old`` was
+    taken from: its names and every absent alphabet name on every map - is
+    read from ``old`` by chained [] / getattr / get.  Each answer must be the
+    frozen one (what a faithful snapshot of ``desc`` answers: the resource /
+    handle object of then, a sub-snapshot, a failure) or the live one (what
+    the map answers now).  Below something that is not a sub-snapshot (any
+    more) every name counts as absent.
+    -> (number of reads, number of answers that moved with the map)."""
+    static = desper.StaticResourceMap
+    reads = moved = 0
+
+    def judge(path, form, sub, now):
+        if sub is _SKIPPED:
+            was = _ABSENT
+        elif isinstance(sub, dict):
+            was = ('snapshot',)
+        else:
+            was = ('obj', sub if form == 2 else sub())
+        if was[0] == 'snapshot':
+            if now[0] == 'obj' and isinstance(now[1], static):
+                return 0
+        elif _same(was, now):
+            return 0                # frozen reading
         live = live_answer(root.real, path, form)
         if live[0] == 'map':
-            ok = now[0] == 'obj' and isinstance(now[1],
-                                                desper.StaticResourceMap)
+            ok = now[0] == 'obj' and isinstance(now[1], static)
         else:
             ok = _same(live, now)
         if ok:
-            moved += 1
-            continue
+            return 1
         raise Violation(
             'old_snapshot_is_frozen_or_live',
             f'{FORMS[form]} access of {"/".join(path)!r} on the snapshot '
-            f'taken before the {verb!r} edit of the source map gave '
-            f'{was!r} before the edit and gives {now!r} after it, while '
-            f'the map now answers {live!r}: neither the old nor the '
+            f'taken before the {verb!r} edit of the source map gives '
+            f'{now!r}; when the snapshot was taken the map held {was!r} '
+            f'there and now it answers {live!r}: neither the old nor the '
             f'current content, although nothing was set or deleted on the '
             f'snapshot', form=FORMS[form], was=_kind(was), got=_kind(now))
-    return moved
+
+    def visit(desc, path, curs):
+        nonlocal reads, moved
+        for name, ident in _OLD_PROBES:
+            sub = desc.get(name, _SKIPPED)
+            there = path + (name,)
+            nxt = []
+            for form, cur in enumerate(curs):
+                if cur is _SKIPPED or (form == 1 and not ident):
+                    nxt.append(_SKIPPED)    # no attribute walk through here
+                    continue
+                now = _ABSENT if cur is None else _read(cur, name, form)
+                reads += 1
+                moved += judge(there, form, sub, now)
+                nxt.append(now[1] if now[0] == 'obj'
+                           and isinstance(now[1], static) else None)
+            if isinstance(sub, dict):
+                visit(sub, there, nxt)
+
+    visit(desc, (), [old, old, old])
+    return reads, moved
 
 
 def run_edit_case(case):
@@ -820,42 +853,39 @@ def run_edit_case(case):
     path, verb, name = parse_edit(edit)
     root = build(tree, style)
     old = take_snapshot(root)   # the first snapshot
-    shape = shape_of(root)
-    before = read_all(shape, old)
+    desc = frozen_desc(root)
     edit_hits = apply_edit(root, path, verb, name)
     level = 'sub' if path else 'root'
     snap = take_snapshot(root, phase='after_edit', level=level)
     chk = Checker(root, snap, 'after_edit', level=level)
     chk.compare()
     # the old snapshot: nothing was set or deleted on it
-    after = read_all(shape, old)
-    moved = check_old_snapshot(root, before, after, verb)
+    reads, moved = check_old_snapshot(root, desc, old, verb)
     hits = dict.fromkeys(edit_hits, 1)
-    hits['old_snapshot_reread'] = len(after)
+    hits['old_snapshot_reread'] = reads
     if 'handle_name_left_handles' in hits:
         hits['old_snapshot_reread_of_handle_turned_map'] = 1
     if moved:
         hits['info_old_snapshot_answers_moved_with_map'] = moved
     if style == 'A':
         hits['append_style_layer'] = 1
-    calls = (3 + chk.calls + chk.attr_calls + chk.absent_calls
-             + len(before) + len(after))
+    calls = 3 + chk.calls + chk.attr_calls + chk.absent_calls + reads
     return {'calls': calls, 'hits': hits, 'key': case}
 
 
 def parts(tier):
-    (pm, tot), (apm, atot) = BOUNDS[tier]
+    main, append = BOUNDS[tier]
     return {
-        'trees': ('I', pm, tot),
-        'trees-append-layer': ('A', apm, atot),
+        'trees': ('I', main),
+        'trees-append-layer': ('A', append),
     }
 
 
 def edit_parts(tier):
     main, append = EDIT_BOUNDS[tier]
-    d = {'resnapshot-after-edit': ('I',) + main}
+    d = {'resnapshot-after-edit': ('I', main)}
     if append is not None:
-        d['resnapshot-after-edit-append-layer'] = ('A',) + append
+        d['resnapshot-after-edit-append-layer'] = ('A', append)
     return d
 
 
@@ -883,7 +913,12 @@ def run(tier, rep):
         'statement ("read-only snapshot", "immutable", "mirror") does not '
         'say whether it is frozen at creation or follows the map, so each '
         'single answer (per path, per access form, absent names included) '
-        'may be either the answer it gave before the edit (same object) or '
+        'may be either the frozen answer - that of a faithful snapshot of '
+        'the tree before the edit: the resource loaded by / the handle '
+        'object that was there, some StaticResourceMap for a sub-map, '
+        'failure for an absent name (that a FRESH snapshot answers exactly '
+        'so is checked by the one-phase parts on a superset of these '
+        'trees) - or '
         'the answer of the map now (same resource / handle object, some '
         'StaticResourceMap where the map has a sub-map, failure or None '
         'from get where the map has nothing); anything else violates '
@@ -911,20 +946,22 @@ def run(tier, rep):
                      edit_turns_layered_handle_into_map=1,
                      handle_name_left_handles=1, old_snapshot_reread=1,
                      old_snapshot_reread_of_handle_turned_map=1)
-    for part, (style, per_map, total) in parts(tier).items():
-        cases = family(per_map, total, style)
+    for part, (style, boxes) in parts(tier).items():
+        cases = family(boxes, style)
         kernel.enumerate_cases(
             run_case, cases, rep, part,
-            params=dict(style=style, names=list(NAMES), depth=DEPTH,
-                        nodes_per_map=per_map, nodes_total=total,
+            params=dict(style=style, depth=DEPTH,
+                        family_is_union_of=boxes_text(boxes),
+                        probed_names=list(NAMES + FOREIGN),
                         handle_kinds=list(HANDLE_KINDS)),
             chunk=max(200, len(cases) // 400))
-    for part, (style, per_map, total) in edit_parts(tier).items():
-        cases = edit_family(per_map, total, style)
+    for part, (style, boxes) in edit_parts(tier).items():
+        cases = edit_family(boxes, style)
         kernel.enumerate_cases(
             run_edit_case, cases, rep, part,
-            params=dict(style=style, names=list(NAMES), depth=DEPTH,
-                        nodes_per_map=per_map, nodes_total=total,
+            params=dict(style=style, depth=DEPTH,
+                        family_is_union_of=boxes_text(boxes),
+                        new_names_drawn_from=list(NAMES),
                         handle_kinds=list(HANDLE_KINDS),
                         edit_verbs=list(EDIT_VERBS),
                         deepen_child=DEEPEN_CHILD,
